@@ -2,7 +2,7 @@
 From Coq Require Import Arith NArith List Bool Permutation.
 From Coq.Strings Require Import Byte.
 From LV Require Import Lib.Bytes Model.C06 Proofs.C06_Num Proofs.C06_Base58 Proofs.C06_Keys Proofs.C06_Ckd
-  Proofs.C06_Gap Proofs.C06_Mnemonic.
+  Proofs.C06_Gap Proofs.C06_Mnemonic Proofs.C06_Normalize.
 Import ListNotations.
 Local Open Scope N_scope.
 
@@ -227,6 +227,34 @@ Theorem C06_address_injective : forall (hash160 dsha : bytes -> bytes) prefix pk
 Proof. exact address_injective. Qed.
 Print Assumptions C06_address_injective.
 
+(* The address validator (Ledger.is_pubkey_address / is_script_address, used by valid_address_or_error) rejects
+   checksum errors: it answers true only when the string decodes to version byte :: rest followed by the matching
+   4-byte checksum; it accepts every address the wallet produces; and a different string that it accepts is never
+   an alias of that address (it carries a different payload). *)
+Theorem C06_address_validator_sound : forall (dsha : bytes -> bytes) v a, is_version_address dsha v a = Ok true ->
+  exists r, b58_decode_check dsha a = Ok (v :: r) /\ b58_decode a = Ok ((v :: r) ++ checksum dsha (v :: r)).
+Proof. exact validator_sound. Qed.
+Print Assumptions C06_address_validator_sound.
+
+Theorem C06_address_validator_accepts : forall (hash160 dsha : bytes -> bytes) c pk a,
+  c <> x00 -> (4 <= length (dsha ([c] ++ hash160 pk)))%nat ->
+  address hash160 dsha [c] pk = Ok a -> is_version_address dsha c a = Ok true.
+Proof. exact validator_accepts_address. Qed.
+Print Assumptions C06_address_validator_accepts.
+
+Theorem C06_address_validator_no_alias : forall (hash160 dsha : bytes -> bytes) c pk a a',
+  address hash160 dsha [c] pk = Ok a -> c <> x00 -> (4 <= length (dsha ([c] ++ hash160 pk)))%nat ->
+  a' <> a -> is_version_address dsha c a' = Ok true ->
+  exists r, b58_decode_check dsha a' = Ok (c :: r) /\ r <> hash160 pk.
+Proof. exact validator_no_alias. Qed.
+Print Assumptions C06_address_validator_no_alias.
+
+Theorem C06_valid_address_sound : forall (dsha : bytes -> bytes) pv sv allow a,
+  valid_address dsha pv sv allow a = true ->
+  is_version_address dsha pv a = Ok true \/ (allow = true /\ is_version_address dsha sv a = Ok true).
+Proof. exact valid_address_sound. Qed.
+Print Assumptions C06_valid_address_sound.
+
 (* The address handed out for (chain c, index i) from the account PUBLIC key (get_public_key / _generate_keys)
    is the address of the key derived from the account PRIVATE key along m/c/i (get_private_key): the wallet
    holds the signing key of every address it lists. *)
@@ -308,6 +336,43 @@ Theorem C06_mnemonic_decode_sound : forall words : list bytes, (2 <= length word
 Proof. exact mnemonic_decode_sound. Qed.
 Print Assumptions C06_mnemonic_decode_sound.
 
+(* ======================================================================== mnemonic text normalisation *)
+
+(* normalize_text applies NFKD first, then lower-casing, then accent stripping: spellings with the same NFKD form
+   (precomposed vs decomposed accents, full-width vs ASCII, ideographic vs ASCII space) -- and more generally
+   spellings that agree after NFKD, lower-casing and accent stripping -- give the same key-stretching input. *)
+Theorem C06_normalize_equivalent_spellings :
+  forall (nfkd lower : list N -> list N) (combining : N -> bool) s1 s2,
+  strip_accents combining (lower (nfkd s1)) = strip_accents combining (lower (nfkd s2)) ->
+  normalize_text nfkd lower combining s1 = normalize_text nfkd lower combining s2.
+Proof. exact normalize_accent_case_insensitive. Qed.
+Print Assumptions C06_normalize_equivalent_spellings.
+
+Theorem C06_normalize_respects_nfkd :
+  forall (nfkd lower : list N -> list N) (combining : N -> bool) s1 s2, nfkd s1 = nfkd s2 ->
+  normalize_text nfkd lower combining s1 = normalize_text nfkd lower combining s2.
+Proof. exact normalize_respects_nfkd. Qed.
+Print Assumptions C06_normalize_respects_nfkd.
+
+(* Every character of the normalised text other than U+0020 is a NON-combining character of lower(NFKD(s)):
+   no accent reaches PBKDF2. *)
+Theorem C06_normalize_no_combining :
+  forall (nfkd lower : list N -> list N) (combining : N -> bool) s c,
+  In c (normalize_text nfkd lower combining s) -> c <> 32 -> combining c = false /\ In c (lower (nfkd s)).
+Proof. exact normalize_no_combining. Qed.
+Print Assumptions C06_normalize_no_combining.
+
+(* ' '.join(s.split()) keeps the words and is idempotent; the CJK rule deletes ASCII whitespace only. *)
+Theorem C06_normalize_whitespace : forall s : list N,
+  splitg is_ws_cp (collapse_ws s) = splitg is_ws_cp s /\ collapse_ws (collapse_ws s) = collapse_ws s.
+Proof. exact (fun s => conj (collapse_ws_words s) (collapse_ws_idempotent s)). Qed.
+Print Assumptions C06_normalize_whitespace.
+
+Theorem C06_normalize_cjk_rule_keeps_content : forall s prev,
+  filter (fun c => negb (is_ascii_ws c)) (rm_cjk_spaces prev s) = filter (fun c => negb (is_ascii_ws c)) s.
+Proof. exact rm_cjk_spaces_content. Qed.
+Print Assumptions C06_normalize_cjk_rule_keeps_content.
+
 (* ======================================================================== non-vacuity *)
 Example C06_ex_quirk : (b58_decode [x31], b58_encode [x00]) = (Ok [x00; x00], Ok [x31]).
 Proof. vm_compute. reflexivity. Qed.
@@ -339,4 +404,10 @@ Proof. vm_compute. reflexivity. Qed.
 Example C06_ex_mnemonic :
   (mnemonic_encode [[x61]; [x62]; [x63]] 11, mnemonic_decode [[x61]; [x62]; [x63]] [x63; x20; x61; x20; x62])
   = ([x63; x20; x61; x20; x62], Ok 11).
+Proof. vm_compute. reflexivity. Qed.
+
+(* "A  B" with an ideographic space collapses; the space between two CJK characters is dropped, the one next to a
+   Latin letter stays: 0x4E00 ' ' 0x4E8C ' ' 'a' *)
+Example C06_ex_normalize :
+  (collapse_ws [65; 12288; 32; 66], rm_cjk_spaces None [19968; 32; 20108; 32; 97]) = ([65; 32; 66], [19968; 20108; 32; 97]).
 Proof. vm_compute. reflexivity. Qed.
